@@ -71,7 +71,8 @@ pub fn all_game_hosts() -> Vec<Host> {
     v
 }
 
-const MARKERS: [(&str, &str); 11] = [("m0", ""), ("mS", "S"), ("mf", "f"), ("mSS", "SS"), ("mSf", "Sf"), ("mfS", "fS"), ("mff", "ff"), ("mSSS", "SSS"), ("mfff", "fff"), ("mSfSf", "SfSf"), ("mz", "z(bs=4)")];
+const MARKERS: [(&str, &str); 13] = [("m0", ""), ("mS", "S"), ("mf", "f"), ("mSS", "SS"), ("mSf", "Sf"), ("mfS", "fS"), ("mff", "ff"), ("mSSS", "SSS"), ("mfff", "fff"), ("mSfSf", "SfSf"), ("mz", "z(bs=4)"),
+    ("mS8", "SSSSSSSS"), ("mf8S", "ffffffffS")];
 
 impl Host {
     /// marker signature for this host (TH06-TH09 STD needs exactly 12 bytes of arguments per instruction)
@@ -368,6 +369,17 @@ pub fn run(tier: &str) -> Report {
             }}}
         }
         if host.regs.is_some() { for (b, fam) in raw_intrinsic_bodies(&host) { bodies.push((b, fam)); } }
+        // wide instructions: every register mask with 0..=9 leading register bits, a hole, or only a late bit; without the
+        // signature (map setting "none") the instruction is a blob whose `@mask` must carry exactly these bits
+        if host.regs.is_some() {
+            for pat in [0b1111_1111u32, 0b0111_1111, 0b1111_1110, 0b1_1111_1111, 0b1_0000_0000, 0b1000_0000, 0b1010_0101, 0] {
+                let ia = ["A", "B", "C", "D"]; let fa = ["X", "Y", "R", "W"];
+                let s8: Vec<String> = (0..8).map(|i| if pat >> i & 1 == 1 { ia[i % 4].to_string() } else { format!("{}", 3 + i) }).collect();
+                let f8: Vec<String> = (0..9).map(|i| if pat >> i & 1 == 1 { (if i < 8 { fa[i % 4] } else { "A" }).to_string() } else if i < 8 { format!("{}.5", i) } else { "77".to_string() }).collect();
+                bodies.push((format!("{{ m0(); mS8({}); mS(1); }}", s8.join(", ")), "wide-mask"));
+                bodies.push((format!("{{ mf8S({}); +3: mf8S({}); }}", f8.join(", "), f8.join(", ")), "wide-mask"));
+            }
+        }
         let mut seen_plain = BTreeSet::new();
         let (pn, pb) = if reduced { if thorough { (3, 3) } else { (2, 2) } } else if thorough { (4, 4) } else { (3, 3) };
         for n in 1..=pn { explore_dfs(pb, 100_000, &|ch| gen_plain(ch, &host, n), &mut |_, b| { if seen_plain.insert(b.clone()) { bodies.push((b, "plain")); } }); }
